@@ -110,14 +110,6 @@ theorem splitFrame_none_of_short (u : Bytes) (h : u.length < 2 ∨ u.length < 2 
 
 /-! ### handing up a cached frame -/
 
-/-- the `have_whole_frame` branch of `agent_recv_message_unlocked` followed by
-    `agent_consume_next_rfc4571_chunk` -/
-def deliver (handled : Bytes → Bool) (s : St) (b : Base) : Res × St × Base :=
-  if ((s.buf.drop (s.fo + 2)).take (s.fs - 2)).length == 0 then ({ ret := RECV_OOB }, advance s, b)
-  else if handled ((s.buf.drop (s.fo + 2)).take (s.fs - 2)) then ({ ret := RECV_OOB }, advance s, b)
-  else ({ ret := RECV_SUCCESS, up := [{ data := ((s.buf.drop (s.fo + 2)).take (s.fs - 2)).take 65536 }] },
-        advance { s with cs := s.cs + (((s.buf.drop (s.fo + 2)).take (s.fs - 2)).take 65536).length }, b)
-
 theorem getD_drop (buf : Bytes) (fo i : Nat) : (buf.drop fo).getD i 0 = buf.getD (fo + i) 0 := by
   simp only [List.getD_eq_getElem?_getD, List.getElem?_drop]
 
@@ -159,6 +151,7 @@ theorem deliver_spec (handled : Bytes → Bool) (s : St) (b : Base) (hf : s.faul
   refine ⟨_, _, hsp, ?_⟩
   simp only [headroom] at h2 hw
   have hfo2 : s.fo + s.fs ≤ s.buf.length := by omega
+  have hnf2 : ¬ (s.fo + s.fs > s.buf.length) := by omega
   have hfsle : s.fs ≤ BUFSIZE := by rw [hfs]; exact frameSizeAt_le s
   have hplen : ((s.buf.drop (s.fo + 2)).take (s.fs - 2)).length ≤ 65535 := by
     simp only [List.length_take, BUFSIZE] at *; omega
@@ -169,7 +162,7 @@ theorem deliver_spec (handled : Bytes → Bool) (s : St) (b : Base) (hf : s.faul
   · have hPn : P = [] := List.length_eq_zero_iff.mp he
     obtain ⟨a1, a2, a3, a4⟩ := advance_spec s hf hfo2 hb
     have hd : deliver handled s b = ({ ret := RECV_OOB }, advance s, b) := by
-      simp [deliver, hP, he]
+      simp [Rfc4571.deliver, hP, he, hnf2]
     rw [hd]
     refine ⟨?_, ?_, rfl, by simp [RECV_OOB, RECV_SUCCESS, RECV_ERROR], a1, rfl, a4⟩
     · simp [unconsumed, a2, a3]
@@ -182,7 +175,7 @@ theorem deliver_spec (handled : Bytes → Bool) (s : St) (b : Base) (hf : s.faul
     by_cases hh : handled P = true
     · obtain ⟨a1, a2, a3, a4⟩ := advance_spec s hf hfo2 hb
       have hd : deliver handled s b = ({ ret := RECV_OOB }, advance s, b) := by
-        simp [deliver, hP, hne, hh]
+        simp [Rfc4571.deliver, hP, hne, hh, hnf2]
       rw [hd]
       refine ⟨?_, ?_, rfl, by simp [RECV_OOB, RECV_SUCCESS, RECV_ERROR], a1, rfl, a4⟩
       · simp [unconsumed, a2, a3]
@@ -191,7 +184,7 @@ theorem deliver_spec (handled : Bytes → Bool) (s : St) (b : Base) (hf : s.faul
       obtain ⟨a1, a2, a3, a4⟩ := advance_spec { s with cs := s.cs + P.length } hf hfo2 hb
       have hd : deliver handled s b =
           ({ ret := RECV_SUCCESS, up := [{ data := P }] }, advance { s with cs := s.cs + P.length }, b) := by
-        simp [deliver, hP, hne, hh', htake]
+        simp [Rfc4571.deliver, hP, hne, hh', htake, hnf2]
       rw [hd]
       refine ⟨?_, ?_, rfl, by simp [RECV_OOB, RECV_SUCCESS, RECV_ERROR], a1, rfl, a4⟩
       · simp [unconsumed, a2, a3]
@@ -206,8 +199,7 @@ theorem recv_cached (handled : Bytes → Bool) (s : St) (b : Base) (hi : RInv s)
   have hmiss : (s.fs == 0 || decide (headroom s < s.fs)) = false := by
     simp [hfs]; omega
   have hwhole : (s.fs != 0 && decide (headroom s ≥ s.fs)) = true := by simp [hfs, hw]
-  have hnf2 : ¬ (s.fo + s.fs > s.buf.length) := by simp only [headroom] at hw; omega
-  simp only [Rfc4571.recv, hnf, ↓reduceIte, hmiss, Bool.false_eq_true, hwhole, hnf2, deliver]
+  simp only [Rfc4571.recv, hnf, ↓reduceIte, hmiss, Bool.false_eq_true, hwhole]
 
 theorem recv_empty (handled : Bytes → Bool) (s : St) (b : Base) (hi : RInv s)
     (hm : s.fs = 0 ∨ headroom s < s.fs) (hb : Base.Healthy b) (hp : b.pend = []) :
@@ -217,12 +209,11 @@ theorem recv_empty (handled : Bytes → Bool) (s : St) (b : Base) (hi : RInv s)
   have hmiss : (s.fs == 0 || decide (headroom s < s.fs)) = true := by
     rcases hm with h | h <;> simp [h]
   have hhd : headroom s = s.buf.length - s.fo := rfl
-  have hnofs : ¬ (s.fs = 0 ∧ headroom s ≥ 2) := by
+  have hnofs : (s.fs == 0 && decide (headroom s ≥ 2)) = false := by
     rcases hfr with ⟨_, h⟩ | ⟨h, h'⟩
-    · omega
-    · intro ⟨h0, _⟩
-      rw [h0] at h'
-      simp only [frameSizeAt] at h'; omega
+    · simp; intro _; omega
+    · have : s.fs ≠ 0 := by rw [h']; simp only [frameSizeAt]; omega
+      simp [this]
   have hnw : (s.fs != 0 && decide (headroom s ≥ s.fs)) = false := by
     rcases hm with h | h
     · simp [h]
@@ -231,15 +222,17 @@ theorem recv_empty (handled : Bytes → Bool) (s : St) (b : Base) (hi : RInv s)
 
 /-- state after moving `bytes` from the socket behind the unconsumed ones -/
 def afterRead (s : St) (bytes : Bytes) : St :=
-  if (s.fs == 0 && decide (headroom s + bytes.length ≥ 2)) = true then
-    St.mk (s.buf.drop s.fo ++ bytes) 0 (frameSizeAt (St.mk (s.buf.drop s.fo ++ bytes) 0 s.fs s.cs s.wk s.fault)) s.cs s.wk s.fault
+  if ((St.mk (s.buf.drop s.fo ++ bytes) 0 s.fs s.cs s.wk s.fault).fs == 0 &&
+      decide (headroom (St.mk (s.buf.drop s.fo ++ bytes) 0 s.fs s.cs s.wk s.fault) ≥ 2)) = true then
+    { St.mk (s.buf.drop s.fo ++ bytes) 0 s.fs s.cs s.wk s.fault with
+      fs := frameSizeAt (St.mk (s.buf.drop s.fo ++ bytes) 0 s.fs s.cs s.wk s.fault) }
   else St.mk (s.buf.drop s.fo ++ bytes) 0 s.fs s.cs s.wk s.fault
 
 theorem recv_read (handled : Bytes → Bool) (s : St) (b : Base) (hi : RInv s)
     (hm : s.fs = 0 ∨ headroom s < s.fs) (hb : Base.Healthy b) (hp : b.pend ≠ []) :
     Rfc4571.recv handled s b =
       (if ((afterRead s (b.pend.take (min (BUFSIZE - headroom s) b.pend.length))).fs != 0 &&
-          decide (headroom s + min (BUFSIZE - headroom s) b.pend.length ≥
+          decide (headroom (afterRead s (b.pend.take (min (BUFSIZE - headroom s) b.pend.length))) ≥
             (afterRead s (b.pend.take (min (BUFSIZE - headroom s) b.pend.length))).fs)) = true
        then deliver handled (afterRead s (b.pend.take (min (BUFSIZE - headroom s) b.pend.length)))
               { b with pend := b.pend.drop (min (BUFSIZE - headroom s) b.pend.length) }
@@ -263,31 +256,396 @@ theorem recv_read (handled : Bytes → Bool) (s : St) (b : Base) (hi : RInv s)
   have hcap : 0 < BUFSIZE - headroom s := by omega
   have hread := read_healthy_cons b hb hp (BUFSIZE - headroom s) hcap
   generalize hn : min (BUFSIZE - headroom s) b.pend.length = n at *
-  have htl : (b.pend.take n).length = n := by simp only [List.length_take]; omega
-  have hbl1 : (s.buf.drop s.fo ++ b.pend.take n).length = headroom s + n := by
-    simp only [List.length_append, List.length_drop, htl, hhd]
-  simp only [Rfc4571.recv, hnf, ↓reduceIte, hmiss, hpl, Bool.false_eq_true, hnf3, hread, beq_self_eq_true, htl, afterRead]
-  by_cases hcb : (s.fs == 0 && decide (headroom s + n ≥ 2)) = true
-  · simp only [hcb, ↓reduceIte]
-    generalize hS : St.mk (s.buf.drop s.fo ++ b.pend.take n) 0
-        (frameSizeAt (St.mk (s.buf.drop s.fo ++ b.pend.take n) 0 s.fs s.cs s.wk s.fault)) s.cs s.wk s.fault = S
-    have hSb : S.buf.length = headroom s + n := by rw [← hS]; exact hbl1
-    have hSf : S.fo = 0 := by rw [← hS]
-    by_cases hwb : (S.fs != 0 && decide (headroom s + n ≥ S.fs)) = true
-    · have hle : S.fs ≤ headroom s + n := by simp at hwb; exact hwb.2
-      have hnf2 : ¬ (S.fo + S.fs > S.buf.length) := by rw [hSf, hSb]; omega
-      simp only [hwb, ↓reduceIte, hnf2, deliver]
-    · have hwb' : (S.fs != 0 && decide (headroom s + n ≥ S.fs)) = false := by simpa using hwb
-      simp [hwb', RECV_WOULD_BLOCK]
-  · have hcb' : (s.fs == 0 && decide (headroom s + n ≥ 2)) = false := by simpa using hcb
-    simp only [hcb', Bool.false_eq_true, ↓reduceIte]
-    generalize hS : St.mk (s.buf.drop s.fo ++ b.pend.take n) 0 s.fs s.cs s.wk s.fault = S
-    have hSb : S.buf.length = headroom s + n := by rw [← hS]; exact hbl1
-    have hSf : S.fo = 0 := by rw [← hS]
-    by_cases hwb : (S.fs != 0 && decide (headroom s + n ≥ S.fs)) = true
-    · have hle : S.fs ≤ headroom s + n := by simp at hwb; exact hwb.2
-      have hnf2 : ¬ (S.fo + S.fs > S.buf.length) := by rw [hSf, hSb]; omega
-      simp only [hwb, ↓reduceIte, hnf2, deliver]
-    · have hwb' : (S.fs != 0 && decide (headroom s + n ≥ S.fs)) = false := by simpa using hwb
-      simp [hwb', RECV_WOULD_BLOCK]
+  have hx : refill s b = (1, afterRead s (b.pend.take n), { b with pend := b.pend.drop n }) := by
+    simp only [refill, hnf3, ↓reduceIte, hread, beq_self_eq_true, afterRead]
+  simp only [Rfc4571.recv, hnf, ↓reduceIte, hmiss, hpl, Bool.false_eq_true, hx]
+  generalize afterRead s (b.pend.take n) = S
+  split
+  · rfl
+  · simp [RECV_WOULD_BLOCK]
+
+theorem missing_none (s : St) (hi : RInv s) (hm : s.fs = 0 ∨ headroom s < s.fs) (b : Base) (hp : b.pend = []) :
+    splitFrame (unconsumed s b) = none := by
+  obtain ⟨hf, hfo, hbl, hcs, hfr⟩ := hi
+  have hhd : headroom s = s.buf.length - s.fo := rfl
+  apply splitFrame_none_of_short
+  simp only [unconsumed, hp, List.append_nil, List.length_drop, getD_drop, Nat.add_zero]
+  rcases hfr with ⟨h0, h⟩ | ⟨h2, h⟩
+  · left; omega
+  · right
+    rcases hm with h' | h'
+    · rw [h'] at h; simp only [frameSizeAt] at h; omega
+    · rw [h] at h'; simp only [frameSizeAt] at h'; omega
+
+theorem afterRead_spec (s : St) (hi : RInv s) (bytes : Bytes) (hcap : headroom s + bytes.length ≤ BUFSIZE) :
+    RInv (afterRead s bytes) ∧ (afterRead s bytes).buf = s.buf.drop s.fo ++ bytes ∧ (afterRead s bytes).fo = 0 ∧
+    (afterRead s bytes).wk = s.wk := by
+  obtain ⟨hf, hfo, hbl, hcs, hfr⟩ := hi
+  have hhd : headroom s = s.buf.length - s.fo := rfl
+  have hlen : (s.buf.drop s.fo ++ bytes).length = headroom s + bytes.length := by
+    simp only [List.length_append, List.length_drop, hhd]
+  have hfsz : ∀ (fs cs : Nat) (wk fault : Bool), 2 ≤ headroom s →
+      frameSizeAt (St.mk (s.buf.drop s.fo ++ bytes) 0 fs cs wk fault) = frameSizeAt s := by
+    intro fs cs wk fault h2
+    have g0 := getD_drop_append s.buf bytes s.fo 0 (by omega)
+    have g1 := getD_drop_append s.buf bytes s.fo 1 (by omega)
+    simp only [Nat.add_zero] at g0
+    simp only [frameSizeAt, Nat.zero_add, g0, g1]
+  unfold afterRead
+  generalize hT : St.mk (s.buf.drop s.fo ++ bytes) 0 s.fs s.cs s.wk s.fault = T
+  have tb : T.buf = s.buf.drop s.fo ++ bytes := by rw [← hT]
+  have tfo : T.fo = 0 := by rw [← hT]
+  have tfs : T.fs = s.fs := by rw [← hT]
+  have tcs : T.cs = s.cs := by rw [← hT]
+  have twk : T.wk = s.wk := by rw [← hT]
+  have tf : T.fault = s.fault := by rw [← hT]
+  have thr : headroom T = headroom s + bytes.length := by simp only [headroom, tb, tfo, hlen, Nat.sub_zero]
+  have tfz : 2 ≤ headroom s → frameSizeAt T = frameSizeAt s := by
+    intro h2; rw [← hT]; exact hfsz _ _ _ _ h2
+  by_cases hc : (T.fs == 0 && decide (headroom T ≥ 2)) = true
+  · rw [if_pos hc]
+    simp only [Bool.and_eq_true, beq_iff_eq, decide_eq_true_eq] at hc
+    refine ⟨⟨by simp only [tf, hf], by simp only [tfo]; exact Nat.zero_le _, by simp only [tb, hlen]; exact hcap,
+      by simp only [tcs, hcs], Or.inr ⟨?_, ?_⟩⟩, tb, tfo, twk⟩
+    · simp only [headroom, tb, tfo, hlen] at hc ⊢; omega
+    · simp only [frameSizeAt]
+  · rw [if_neg hc]
+    have hc' : (T.fs == 0 && decide (headroom T ≥ 2)) = false := by simpa using hc
+    refine ⟨⟨by simp only [tf, hf], by simp only [tfo]; exact Nat.zero_le _, by simp only [tb, hlen]; exact hcap,
+      by simp only [tcs, hcs], ?_⟩, tb, tfo, twk⟩
+    rcases hfr with ⟨h0, h⟩ | ⟨h2, h⟩
+    · left
+      refine ⟨by rw [tfs, h0], ?_⟩
+      rw [tfs, h0] at hc'
+      simp only [beq_self_eq_true, Bool.true_and, decide_eq_false_iff_not] at hc'
+      omega
+    · right
+      refine ⟨by omega, ?_⟩
+      rw [tfs, h, tfz h2]
+
+/-- **one receive call**: either the first frame of the unconsumed bytes is handed up (or consumed
+    out-of-band) and removed, or bytes only move from the socket into the buffer -/
+theorem rstep (handled : Bytes → Bool) (s : St) (b : Base) (hi : RInv s) (hb : Base.Healthy b) :
+    RInv (Rfc4571.recv handled s b).2.1 ∧ Base.Healthy (Rfc4571.recv handled s b).2.2 ∧
+    (Rfc4571.recv handled s b).1.down = [] ∧ (Rfc4571.recv handled s b).1.ret ≠ RECV_ERROR ∧
+    (Rfc4571.recv handled s b).2.2.pend.length ≤ b.pend.length ∧
+    ((∃ p rest, splitFrame (unconsumed s b) = some (p, rest) ∧
+        unconsumed (Rfc4571.recv handled s b).2.1 (Rfc4571.recv handled s b).2.2 = rest ∧
+        (Rfc4571.recv handled s b).1.up.map (·.data) = [p].filter (deliverable handled) ∧
+        (Rfc4571.recv handled s b).2.1.wk =
+          (splitFrame ((Rfc4571.recv handled s b).2.1.buf.drop (Rfc4571.recv handled s b).2.1.fo)).isSome) ∨
+     (unconsumed (Rfc4571.recv handled s b).2.1 (Rfc4571.recv handled s b).2.2 = unconsumed s b ∧
+        (Rfc4571.recv handled s b).1.up = [] ∧ (Rfc4571.recv handled s b).2.1.wk = s.wk ∧
+        (b.pend ≠ [] → (Rfc4571.recv handled s b).2.2.pend.length < b.pend.length) ∧
+        ((Rfc4571.recv handled s b).2.2.pend = [] → splitFrame (unconsumed s b) = none))) := by
+  have hi' := hi
+  obtain ⟨hf, hfo, hbl, hcs, hfr⟩ := hi
+  have hhd : headroom s = s.buf.length - s.fo := rfl
+  by_cases hm : s.fs = 0 ∨ headroom s < s.fs
+  · by_cases hp : b.pend = []
+    · -- nothing to read
+      rw [recv_empty handled s b hi' hm hb hp]
+      refine ⟨hi', hb, rfl, by simp [RECV_WOULD_BLOCK, RECV_ERROR], Nat.le_refl _, Or.inr ⟨rfl, rfl, rfl, fun h => absurd hp h,
+        fun _ => missing_none s hi' hm b hp⟩⟩
+    · rw [recv_read handled s b hi' hm hb hp]
+      have hlp : 0 < b.pend.length := List.length_pos_iff.mpr hp
+      have hhr : headroom s < BUFSIZE := by
+        have := frameSizeAt_le s
+        rcases hfr with ⟨_, h⟩ | ⟨h1, h⟩
+        · simp only [BUFSIZE]; omega
+        · rcases hm with h' | h'
+          · rw [h'] at h; simp only [frameSizeAt] at h; omega
+          · omega
+      generalize hn : min (BUFSIZE - headroom s) b.pend.length = n
+      have hn0 : 0 < n := by omega
+      have hnle : n ≤ b.pend.length := by omega
+      have htl : (b.pend.take n).length = n := by simp only [List.length_take]; omega
+      obtain ⟨r1, r2, r3, r4⟩ := afterRead_spec s hi' (b.pend.take n) (by rw [htl]; omega)
+      have hb1 : Base.Healthy { b with pend := b.pend.drop n } := hb
+      have hun : unconsumed (afterRead s (b.pend.take n)) { b with pend := b.pend.drop n } = unconsumed s b := by
+        simp only [unconsumed, r2, r3, List.drop_zero, List.append_assoc, List.take_append_drop]
+      generalize hS : afterRead s (b.pend.take n) = S at *
+      have hSr := r1
+      obtain ⟨sf, sfo, sbl, scs, sfr⟩ := r1
+      by_cases hwb : (S.fs != 0 && decide (headroom S ≥ S.fs)) = true
+      · rw [if_pos hwb]
+        simp only [Bool.and_eq_true, bne_iff_ne, ne_eq, decide_eq_true_eq] at hwb
+        have h2 : 2 ≤ headroom S ∧ S.fs = frameSizeAt S := by
+          rcases sfr with ⟨h0, _⟩ | h
+          · exact absurd h0 hwb.1
+          · exact h
+        obtain ⟨p, rest, d1, d2, d3, d4, d5, d6, d7, d8⟩ :=
+          deliver_spec handled S { b with pend := b.pend.drop n } sf sfo sbl scs h2.1 h2.2 hwb.2
+        refine ⟨d6, by rw [d7]; exact hb1, d4, d5, by rw [d7]; simp only [List.length_drop]; omega,
+          Or.inl ⟨p, rest, by rw [← hun]; exact d1, d2, d3, d8⟩⟩
+      · have hwb' : (S.fs != 0 && decide (headroom S ≥ S.fs)) = false := by simpa using hwb
+        rw [if_neg hwb]
+        have hmS : S.fs = 0 ∨ headroom S < S.fs := by
+          by_cases h0 : S.fs = 0
+          · exact Or.inl h0
+          · right
+            simp only [Bool.and_eq_false_iff, bne_eq_false_iff_eq, decide_eq_false_iff_not] at hwb'
+            rcases hwb' with h | h
+            · exact absurd h h0
+            · omega
+        refine ⟨hSr, hb1, rfl, by simp [RECV_WOULD_BLOCK, RECV_ERROR], by simp only [List.length_drop]; omega,
+          Or.inr ⟨hun, rfl, r4, fun _ => by simp only [List.length_drop]; omega, fun hpe => ?_⟩⟩
+        rw [← hun]
+        exact missing_none S hSr hmS _ hpe
+  · -- a whole frame is cached
+    have hfs : s.fs ≠ 0 := fun h => hm (Or.inl h)
+    have hw : s.fs ≤ headroom s := by
+      have : ¬ headroom s < s.fs := fun h => hm (Or.inr h)
+      omega
+    rw [recv_cached handled s b hi' hfs hw]
+    have h2 : 2 ≤ headroom s ∧ s.fs = frameSizeAt s := by
+      rcases hfr with ⟨h0, _⟩ | h
+      · exact absurd h0 hfs
+      · exact h
+    obtain ⟨p, rest, d1, d2, d3, d4, d5, d6, d7, d8⟩ := deliver_spec handled s b hf hfo hbl hcs h2.1 h2.2 hw
+    exact ⟨d6, by rw [d7]; exact hb, d4, d5, by rw [d7]; exact Nat.le_refl _, Or.inl ⟨p, rest, d1, d2, d3, d8⟩⟩
+
+/-! ### the receive loop = the reference parser -/
+
+theorem parse_some (n : Nat) (u p rest : Bytes) (h : splitFrame u = some (p, rest)) (hn : u.length ≤ n) :
+    parse n u = (p :: (parse rest.length rest).1, (parse rest.length rest).2) := by
+  have hl := splitFrame_len u p rest h
+  cases n with
+  | zero => omega
+  | succ n =>
+    simp only [parse, h]
+    rw [parse_fuel n rest.length rest (by omega) (Nat.le_refl _)]
+
+theorem parse_none (n : Nat) (u : Bytes) (h : splitFrame u = none) : parse n u = ([], u) := by
+  cases n <;> simp [parse, h]
+
+theorem msgs_add' (o : Obs) (r : Res) : (o.add r).msgs = o.msgs ++ r.up.map (·.data) := by
+  simp [Obs.add, Obs.msgs]
+
+def rerr (o : Obs) : Bool := o.rets.any (fun r => r == RECV_ERROR)
+
+theorem rerr_add (o : Obs) (r : Res) : rerr (o.add r) = (rerr o || r.ret == RECV_ERROR) := by
+  simp [rerr, Obs.add, List.any_append]
+
+theorem rpump (handled : Bytes → Bool) : ∀ (fuel : Nat) (s : St) (b : Base) (o : Obs), RInv s → Base.Healthy b →
+    (unconsumed s b).length + b.pend.length < fuel →
+    RInv (pump (rfc4571M handled) fuel s b o).1 ∧ Base.Healthy (pump (rfc4571M handled) fuel s b o).2.1 ∧
+    (pump (rfc4571M handled) fuel s b o).2.1.pend = [] ∧
+    (pump (rfc4571M handled) fuel s b o).1.buf.drop (pump (rfc4571M handled) fuel s b o).1.fo =
+      (parse (unconsumed s b).length (unconsumed s b)).2 ∧
+    (pump (rfc4571M handled) fuel s b o).1.wk = false ∧
+    (pump (rfc4571M handled) fuel s b o).2.2.msgs =
+      o.msgs ++ (parse (unconsumed s b).length (unconsumed s b)).1.filter (deliverable handled) ∧
+    (pump (rfc4571M handled) fuel s b o).2.2.down = o.down ∧
+    rerr (pump (rfc4571M handled) fuel s b o).2.2 = rerr o := by
+  intro fuel
+  induction fuel with
+  | zero => intro s b o _ _ h; omega
+  | succ fuel ih =>
+    intro s b o hi hb hlen
+    have hi0 : RInv { s with wk := false } := hi
+    have hun0 : unconsumed { s with wk := false } b = unconsumed s b := rfl
+    have hrecv : (rfc4571M handled).recv s b = Rfc4571.recv handled { s with wk := false } b := rfl
+    obtain ⟨r1, r2, r3, r4, r5, r6⟩ := rstep handled { s with wk := false } b hi0 hb
+    rw [hun0] at r6
+    rcases hR : Rfc4571.recv handled { s with wk := false } b with ⟨res, s1, b1⟩
+    rw [hR] at r1 r2 r3 r4 r5 r6
+    simp only at r1 r2 r3 r4 r5 r6
+    have hstop : (rfc4571M handled).stop res.ret = false := by
+      simp only [rfc4571M, beq_eq_false_iff_ne, ne_eq]; exact r4
+    have hnerr : (res.ret == RECV_ERROR) = false := by simpa using r4
+    rcases r6 with ⟨p, rest, d1, d2, d3, d4⟩ | ⟨m1, m2, m3, m4, m5⟩
+    · -- a frame was removed
+      have hl := splitFrame_len _ p rest d1
+      rw [parse_some _ _ p rest d1 (Nat.le_refl _)]
+      have hmsgs : (o.add res).msgs ++ (parse rest.length rest).1.filter (deliverable handled) =
+          o.msgs ++ (p :: (parse rest.length rest).1).filter (deliverable handled) := by
+        rw [msgs_add', d3]
+        simp only [List.filter_cons, List.filter_nil, List.append_assoc]
+        split <;> simp
+      by_cases hcont : (!b1.pend.isEmpty || s1.wk) = true
+      · have hpump : pump (rfc4571M handled) (fuel + 1) s b o = pump (rfc4571M handled) fuel s1 b1 (o.add res) := by
+          simp only [pump, hrecv, hR, hstop, Bool.not_false, Bool.true_and]
+          have : (!b1.pend.isEmpty || (rfc4571M handled).wake s1) = true := hcont
+          simp only [this, ↓reduceIte]
+        rw [hpump]
+        have hm : (unconsumed s1 b1).length + b1.pend.length < fuel := by rw [d2]; omega
+        obtain ⟨i1, i2, i3, i4, i5, i6, i7, i8⟩ := ih s1 b1 (o.add res) r1 r2 hm
+        rw [d2] at i4 i6
+        refine ⟨i1, i2, i3, i4, i5, ?_, ?_, ?_⟩
+        · rw [i6, hmsgs]
+        · rw [i7]; simp only [Obs.add, r3, List.append_nil]
+        · rw [i8, rerr_add, hnerr]; simp
+      · have hcont' : (!b1.pend.isEmpty || s1.wk) = false := by simpa using hcont
+        have hpump : pump (rfc4571M handled) (fuel + 1) s b o = (s1, b1, o.add res) := by
+          simp only [pump, hrecv, hR, hstop, Bool.not_false, Bool.true_and]
+          have : (!b1.pend.isEmpty || (rfc4571M handled).wake s1) = false := hcont'
+          simp only [this, Bool.false_eq_true, ↓reduceIte]
+        rw [hpump]
+        simp only [Bool.or_eq_false_iff, Bool.not_eq_false', List.isEmpty_iff] at hcont'
+        obtain ⟨hpe, hwk⟩ := hcont'
+        have hrest : rest = s1.buf.drop s1.fo := by
+          rw [← d2]; simp [unconsumed, hpe]
+        have hnone : splitFrame rest = none := by
+          rw [hrest]
+          rw [hwk] at d4
+          cases hsf : splitFrame (s1.buf.drop s1.fo) with
+          | none => rfl
+          | some x => rw [hsf] at d4; simp at d4
+        rw [parse_none _ _ hnone]
+        refine ⟨r1, r2, hpe, hrest.symm, hwk, ?_, ?_, ?_⟩
+        · have := hmsgs; rw [parse_none _ _ hnone] at this; simpa using this
+        · simp only [Obs.add, r3, List.append_nil]
+        · rw [rerr_add, hnerr]; simp
+    · -- bytes only moved into the buffer
+      have hwk1 : s1.wk = false := m3
+      by_cases hpe : b1.pend = []
+      · have hpump : pump (rfc4571M handled) (fuel + 1) s b o = (s1, b1, o.add res) := by
+          simp only [pump, hrecv, hR, hstop, Bool.not_false, Bool.true_and]
+          have : (!b1.pend.isEmpty || (rfc4571M handled).wake s1) = false := by
+            show (!b1.pend.isEmpty || s1.wk) = false
+            simp [hpe, hwk1]
+          simp only [this, Bool.false_eq_true, ↓reduceIte]
+        rw [hpump, parse_none _ _ (m5 hpe)]
+        refine ⟨r1, r2, hpe, ?_, hwk1, ?_, ?_, ?_⟩
+        · rw [← m1]; simp [unconsumed, hpe]
+        · simp [msgs_add', m2]
+        · simp only [Obs.add, r3, List.append_nil]
+        · rw [rerr_add, hnerr]; simp
+      · have hbp : b.pend ≠ [] := by
+          intro h; rw [h] at r5; simp at r5; exact hpe r5
+        have hlt := m4 hbp
+        have hpump : pump (rfc4571M handled) (fuel + 1) s b o = pump (rfc4571M handled) fuel s1 b1 (o.add res) := by
+          simp only [pump, hrecv, hR, hstop, Bool.not_false, Bool.true_and]
+          have : (!b1.pend.isEmpty || (rfc4571M handled).wake s1) = true := by
+            show (!b1.pend.isEmpty || s1.wk) = true
+            cases hbb : b1.pend with
+            | nil => exact absurd hbb hpe
+            | cons x t => rfl
+          simp only [this, ↓reduceIte]
+        rw [hpump]
+        have hm : (unconsumed s1 b1).length + b1.pend.length < fuel := by rw [m1]; omega
+        obtain ⟨i1, i2, i3, i4, i5, i6, i7, i8⟩ := ih s1 b1 (o.add res) r1 r2 hm
+        rw [m1] at i4 i6
+        refine ⟨i1, i2, i3, i4, i5, ?_, ?_, ?_⟩
+        · rw [i6]; simp [msgs_add', m2]
+        · rw [i7]; simp only [Obs.add, r3, List.append_nil]
+        · rw [i8, rerr_add, hnerr]; simp
+
+/-! ### sessions -/
+
+theorem splitFrame_append (u v p rest : Bytes) (h : splitFrame u = some (p, rest)) :
+    splitFrame (u ++ v) = some (p, rest ++ v) := by
+  unfold splitFrame at h ⊢
+  split at h
+  · rename_i hc
+    obtain ⟨rfl, rfl⟩ := Prod.mk.inj (Option.some.inj h)
+    have g0 : (u ++ v).getD 0 0 = u.getD 0 0 := by
+      simp only [List.getD_eq_getElem?_getD]; rw [List.getElem?_append_left (by omega)]
+    have g1 : (u ++ v).getD 1 0 = u.getD 1 0 := by
+      simp only [List.getD_eq_getElem?_getD]; rw [List.getElem?_append_left (by omega)]
+    have hc' : 2 ≤ (u ++ v).length ∧ 2 + be16 (u.getD 0 0) (u.getD 1 0) ≤ (u ++ v).length := by
+      simp only [List.length_append]; omega
+    simp only [g0, g1, hc', and_self, ↓reduceIte, Option.some.injEq, Prod.mk.injEq]
+    constructor
+    · rw [List.drop_append_of_le_length (by omega), List.take_append_of_le_length (by simp only [List.length_drop]; omega)]
+    · rw [List.drop_append_of_le_length (by omega)]
+  · cases h
+
+theorem parse_append (n : Nat) : ∀ (u v : Bytes), u.length ≤ n →
+    parse (u ++ v).length (u ++ v) =
+      ((parse n u).1 ++ (parse ((parse n u).2 ++ v).length ((parse n u).2 ++ v)).1,
+       (parse ((parse n u).2 ++ v).length ((parse n u).2 ++ v)).2) := by
+  induction n with
+  | zero =>
+    intro u v h
+    have : u = [] := List.length_eq_zero_iff.mp (by omega)
+    subst this
+    simp [parse]
+  | succ n ih =>
+    intro u v h
+    cases hs : splitFrame u with
+    | none => simp [parse, hs]
+    | some pr =>
+      obtain ⟨p, rest⟩ := pr
+      have hl := splitFrame_len u p rest hs
+      rw [parse_some _ _ p (rest ++ v) (splitFrame_append u v p rest hs) (Nat.le_refl _)]
+      simp only [parse, hs]
+      rw [ih rest v (by omega)]
+      simp
+
+/-- `frame_size` as a function of the buffered, unconsumed bytes -/
+def fsOf (l : Bytes) : Nat := if l.length < 2 then 0 else 2 + be16 (l.getD 0 0) (l.getD 1 0)
+
+theorem fs_of_inv (s : St) (hi : RInv s) : s.fs = fsOf (s.buf.drop s.fo) := by
+  obtain ⟨_, hfo, _, _, hfr⟩ := hi
+  simp only [fsOf, List.length_drop, getD_drop, Nat.add_zero]
+  rcases hfr with ⟨h0, h⟩ | ⟨h2, h⟩
+  · simp only [headroom] at h; simp [h, h0]
+  · simp only [headroom] at h2
+    have : ¬ (s.buf.length - s.fo < 2) := by omega
+    simp only [this, ↓reduceIte, h, frameSizeAt]
+
+/-- what C17 compares for the ICE-TCP reassembly: unconsumed buffered bytes, frame bookkeeping,
+    messages handed to the application (with boundaries), bytes written, error outcome -/
+structure ROut where
+  leftover : Bytes
+  fs       : Nat
+  cs       : Nat
+  fault    : Bool
+  msgs     : List Bytes
+  wire     : Bytes
+  errored  : Bool
+  deriving DecidableEq
+
+def rOut (x : St × Base × Obs) : ROut :=
+  { leftover := x.1.buf.drop x.1.fo, fs := x.1.fs, cs := x.1.cs, fault := x.1.fault,
+    msgs := x.2.2.msgs, wire := x.2.2.wire, errored := rerr x.2.2 }
+
+def RFInv (handled : Bytes → Bool) (pre : Bytes) (x : St × Base × Obs) : Prop :=
+  RInv x.1 ∧ Base.Healthy x.2.1 ∧ x.2.1.pend = [] ∧ x.1.buf.drop x.1.fo = (parse pre.length pre).2 ∧
+  x.2.2.msgs = (parse pre.length pre).1.filter (deliverable handled) ∧ x.2.2.down = [] ∧ rerr x.2.2 = false
+
+theorem rfeed_inv (handled : Bytes → Bool) (pre ch : Bytes) (x : St × Base × Obs) (h : RFInv handled pre x) :
+    RFInv handled (pre ++ ch) (feed (rfc4571M handled) (fun s => s.buf.length) x ch) := by
+  obtain ⟨s, b, o⟩ := x
+  obtain ⟨h1, h2, h3, h4, h5, h6, h7⟩ := h
+  simp only at h1 h2 h3 h4 h5 h6 h7
+  have hb' : Base.Healthy (b.push ch) := h2
+  have hpend : (b.push ch).pend = ch := by simp [Base.push, h3]
+  have hun : unconsumed s (b.push ch) = (parse pre.length pre).2 ++ ch := by
+    simp only [unconsumed, hpend, h4]
+  have hlen : (unconsumed s (b.push ch)).length + (b.push ch).pend.length < feedFuel (b.push ch) s.buf.length := by
+    simp only [unconsumed, feedFuel, hpend, List.length_append, List.length_drop]; omega
+  obtain ⟨p1, p2, p3, p4, p5, p6, p7, p8⟩ := rpump handled _ s (b.push ch) o h1 hb' hlen
+  rw [hun] at p4 p6
+  have hpa := parse_append pre.length pre ch (Nat.le_refl _)
+  simp only [feed]
+  refine ⟨p1, p2, p3, ?_, ?_, by rw [p7, h6], by rw [p8, h7]⟩
+  · rw [p4, hpa]
+  · rw [p6, h5, hpa, List.filter_append]
+
+theorem rfeedAll_inv (handled : Bytes → Bool) (cs : List Bytes) : ∀ (pre : Bytes) (x : St × Base × Obs),
+    RFInv handled pre x → RFInv handled (pre ++ cs.flatten) (cs.foldl (feed (rfc4571M handled) (fun s => s.buf.length)) x) := by
+  induction cs with
+  | nil => intro pre x h; simpa using h
+  | cons ch cs ih =>
+    intro pre x h
+    simp only [List.flatten_cons, List.foldl_cons]
+    rw [← List.append_assoc]
+    exact ih _ _ (rfeed_inv handled pre ch x h)
+
+theorem rinit_inv (handled : Bytes → Bool) : RFInv handled [] (({} : St), ({} : Base), ({} : Obs)) := by
+  refine ⟨⟨rfl, Nat.le_refl _, by decide, rfl, Or.inl ⟨rfl, by decide⟩⟩, ⟨rfl, rfl, rfl⟩, rfl, rfl, rfl, rfl, rfl⟩
+
+theorem rOut_of_inv (handled : Bytes → Bool) (s : Bytes) (x : St × Base × Obs) (h : RFInv handled s x) :
+    rOut x = { leftover := (parse s.length s).2, fs := fsOf (parse s.length s).2, cs := 0, fault := false,
+               msgs := (parse s.length s).1.filter (deliverable handled), wire := [], errored := false } := by
+  obtain ⟨st, b, o⟩ := x
+  obtain ⟨h1, h2, h3, h4, h5, h6, h7⟩ := h
+  simp only at h1 h2 h3 h4 h5 h6 h7
+  have hfs := fs_of_inv st h1
+  obtain ⟨hf, _, _, hcs, _⟩ := h1
+  simp only [rOut, ROut.mk.injEq]
+  exact ⟨h4, by rw [hfs, h4], hcs, hf, h5, by simp [Obs.wire, h6], h7⟩
 end Nice.Props.C17
